@@ -21,7 +21,8 @@ RULE = (
     "type, foreign basis conventions -, dump_many, write_input, conversions, overlap, failing "
     "calls). Reference = each call alone in a fresh interpreter (run twice with different "
     "PYTHONHASHSEED, which must agree). Pair sweeps: every dump-like call (thorough: every call) "
-    "followed by the whole pool in one interpreter. Histories: Hypothesis draws sequences (with repetitions) of "
+    "followed by the whole pool in one interpreter; adjacency sweeps: a, b1, a, b2, ... so that "
+    "every call b runs immediately after a (quick: a = one load per format module; thorough: every a). Histories: Hypothesis draws sequences (with repetitions) of "
     "pool calls, each executed in one fresh interpreter; schedules: the same sequences distributed "
     "over 2-16 threads with a 1 microsecond switch interval. Oracle: every call's digest (SNAP of "
     "the result | hash of the bytes written | exception class + normalised message) equals its "
@@ -93,6 +94,8 @@ def check_history(spec, prepared):
     out = run_worker(history, spec.get("threads", 0))
     problems = []
     for pos, (idx, digest) in enumerate(zip(history, out["digests"])):
+        if digest is None:
+            digest = "none:the call did not return a result (its thread died)"
         if digest != reference[str(idx)]:
             earlier = [call_name(pool[j]) for j in history[:pos]]
             problems.append(
@@ -155,6 +158,39 @@ def shard_pairs(ctx, part, nparts, prepared):
         ctx.report({"history": spec["history"], "threads": 0}, problems)
 
 
+def shard_adjacent(ctx, part, nparts, prepared):
+    """Every ordered pair (a, b) with b immediately after a: one interpreter per ``a`` running
+    a, b1, a, b2, ..., a, bn.  State that only the *next* call sees (a remembered last format, a
+    cached last result) is invisible to 'a first, then the whole pool'."""
+    pool, reference = prepared["pool"], prepared["reference"]
+    everything = [i for i in range(len(pool)) if str(i) in reference]
+    if ctx.tier == "thorough":
+        firsts = everything
+    else:
+        # quick: one load by file name per format module (the first of each) and every explicit-format load
+        seen = set()
+        firsts = []
+        for i in everything:
+            call = pool[i]
+            if not call["op"].startswith("load"):
+                continue
+            key = call.get("fmt") or call.get("file", "").rsplit(".", 1)[-1]
+            if "fmt" in call or (call["op"], key) not in seen:
+                seen.add((call["op"], key))
+                firsts.append(i)
+    for k, a in enumerate(firsts):
+        if k % nparts != part:
+            continue
+        history = []
+        for b in everything:
+            history += [a, b]
+        spec = {"history": history, "threads": 0}
+        problems, _nontrivial, _labels = check_history(spec, prepared)
+        ctx.record({"kind": "adjacent_sweep", "each_preceded_by": pool[a]}, True, ["adjacent_sweep"])
+        # report the shortest reproduction: the failing call and its predecessor
+        ctx.report({"history": spec["history"], "threads": 0}, problems)
+
+
 def shard_selfmod(ctx, prepared):
     """A single call in a fresh interpreter must not change a module table either."""
     pool = prepared["pool"]
@@ -173,6 +209,8 @@ def shards(tier, seed):
     out = [("selfmod", "shard_selfmod", {})]
     for part in range(5):
         out.append((f"pairs{part}", "shard_pairs", {"part": part, "nparts": 5}))
+    for part in range(5):
+        out.append((f"adjacent{part}", "shard_adjacent", {"part": part, "nparts": 5}))
     for i in range(6):
         out.append((f"histories{i}", "shard_histories", {"max_examples": 300 if big else 22, "threads": False}))
     for i in range(4):
